@@ -504,6 +504,13 @@ func init() {
 		e.block("RLock", func() bool { return !l.writer && l.writersWaiting == 0 })
 		l.readers++
 		e.raceLock(mutexPtr(args[0]), lockR, true)
+		// an export point: concurrent line processing may arrive right after
+		// an exporter has taken a metric's read lock (harness hook, if armed)
+		if e.cur.id == 0 && !e.inExportPoint && strings.HasSuffix(e.race.names[mutexPtr(args[0])], "Metric.RWMutex") {
+			e.inExportPoint = true
+			e.exportPoint()
+			e.inExportPoint = false
+		}
 		return nil
 	}
 	stubs["(*sync.RWMutex).TryRLock"] = func(e *Exec, fn *ssa.Function, args []value) value {
